@@ -237,6 +237,8 @@ pub fn run_state_case<T: Sc>(out: Option<&mut Out>, c: &StateCase<T>, fault: Opt
                     if let Ok(Ok(fresh)) = guarded(|| build_problem(c.flavour, model3, &c.y, wv.as_ref(), c.eps)) {
                         emit_outputs(out, "cfresh", fresh.as_ref());
                     }
+                    // ... and the original, queried again without any update, answers as before (round 12)
+                    emit_outputs(out, "twinAfterClone", prob.as_ref());
                 }
             }
         }
